@@ -288,6 +288,8 @@ def run(ctx):
          "types": [["@A", '{\n  "a": {} // {or: [{type: "@A", nullable: false}, {type: "@A", const: false}]}\n}']], "check": "err", "used": ["@A"]},
         {"what": "or list of rule-sets with a terminating member", "schema": "@A",
          "types": [["@A", '{\n  "a": 1 // {or: [{type: "@A", nullable: false}, {type: "integer"}]}\n}']], "check": "ok", "used": ["@A"]},
+        {"what": "key-shortcut type that names itself next to a terminating alternative", "schema": '{\n  @k: 1\n}', "types": [["@k", "@k | @s"], ["@s", '"s"']], "check": "ok", "used": ["@k"]},
+        {"what": "key-shortcut types that name each other next to a terminating alternative", "schema": '{\n  @k: 1\n}', "types": [["@k", "@m | @s"], ["@m", "@k | @s"], ["@s", '"s"']], "check": "ok", "used": ["@k"]},
         {"what": "allOf cycle through an array", "schema": "@node", "types": [["@node", '{\n  "children": [\n    {} // {allOf: "@node"}\n  ]\n}']], "check": "ok", "used": ["@node"], "cls": "allof_cycle"},
         {"what": "allOf cycle through an optional property", "schema": "@node", "types": [["@node", '{\n  "next": {} // {allOf: "@node", optional: true}\n}']], "check": "ok", "used": ["@node"], "cls": "allof_cycle"},
         {"what": "allOf cycle through an array, two types", "schema": "@a", "types": [["@a", '{\n  "bs": [\n    @b\n  ]\n}'], ["@b", '{ // {allOf: "@a"}\n  "x": 1\n}']], "check": "ok", "used": ["@a"], "cls": "allof_cycle"},
